@@ -8,6 +8,7 @@ import (
 	"go/types"
 	"os"
 	"path/filepath"
+	"regexp"
 	"strings"
 	"sync"
 
@@ -51,30 +52,68 @@ func harnessOverlay(repoDir, harnessDir string) (map[string][]byte, error) {
 	return ov, err
 }
 
+// excludedHarness: harness files (relative to the harness directory) left out because they do not
+// type-check against the current tree (a change renamed or removed an internal symbol they use).
+// The harnesses they define are reported as inconclusive; everything else still runs.
+var excludedHarness = map[string]string{}
+
+var errPosRe = regexp.MustCompile(`^(\S+?\.go):\d+`)
+
 func loadProgram(repoDir, harnessDir string) (*Program, error) {
-	ov, err := harnessOverlay(repoDir, harnessDir)
-	if err != nil {
-		return nil, err
-	}
-	cfg := &packages.Config{
-		Mode: packages.NeedName | packages.NeedFiles | packages.NeedCompiledGoFiles | packages.NeedImports |
-			packages.NeedDeps | packages.NeedTypes | packages.NeedSyntax | packages.NeedTypesInfo | packages.NeedTypesSizes | packages.NeedModule,
-		Dir:     repoDir,
-		Overlay: ov,
-		Env:     append(os.Environ(), "GOFLAGS=-mod=mod", "GOPROXY=off", "GOSUMDB=off", "GOTOOLCHAIN=local"),
-	}
-	initial, err := packages.Load(cfg, repoPkgs...)
-	if err != nil {
-		return nil, err
-	}
-	p := &Program{byPath: map[string]*ssa.Package{}, harness: map[string]*ssa.Function{}, repoDir: repoDir, overlay: ov}
-	for _, ip := range initial {
-		for _, e := range ip.Errors {
-			p.loadErrs = append(p.loadErrs, e.Error())
+	var p *Program
+	var initial []*packages.Package
+	for attempt := 0; ; attempt++ {
+		ov, err := harnessOverlay(repoDir, harnessDir)
+		if err != nil {
+			return nil, err
 		}
-	}
-	if len(p.loadErrs) > 0 {
-		return p, fmt.Errorf("package errors: %s", strings.Join(p.loadErrs, "; "))
+		for rel := range excludedHarness {
+			delete(ov, filepath.Join(repoDir, rel))
+		}
+		cfg := &packages.Config{
+			Mode: packages.NeedName | packages.NeedFiles | packages.NeedCompiledGoFiles | packages.NeedImports |
+				packages.NeedDeps | packages.NeedTypes | packages.NeedSyntax | packages.NeedTypesInfo | packages.NeedTypesSizes | packages.NeedModule,
+			Dir:     repoDir,
+			Overlay: ov,
+			Env:     append(os.Environ(), "GOFLAGS=-mod=mod", "GOPROXY=off", "GOSUMDB=off", "GOTOOLCHAIN=local"),
+		}
+		initial, err = packages.Load(cfg, repoPkgs...)
+		if err != nil {
+			return nil, err
+		}
+		p = &Program{byPath: map[string]*ssa.Package{}, harness: map[string]*ssa.Function{}, repoDir: repoDir, overlay: ov}
+		for _, ip := range initial {
+			for _, e := range ip.Errors {
+				p.loadErrs = append(p.loadErrs, e.Error())
+			}
+		}
+		if len(p.loadErrs) == 0 {
+			break
+		}
+		// errors located in harness files (not the API twins) exclude those files; anything else,
+		// or no progress, is a tree that cannot be judged
+		progress := false
+		for _, msg := range p.loadErrs {
+			m := errPosRe.FindStringSubmatch(msg)
+			if m == nil {
+				continue
+			}
+			rel, err := filepath.Rel(repoDir, m[1])
+			base := filepath.Base(m[1])
+			if err != nil || !strings.HasPrefix(base, "zz_verif_") || base == "zz_verif_api.go" || base == "zz_verif_api_prom.go" {
+				continue
+			}
+			if _, inOverlay := ov[m[1]]; !inOverlay {
+				continue
+			}
+			if _, done := excludedHarness[rel]; !done {
+				excludedHarness[rel] = msg
+				progress = true
+			}
+		}
+		if !progress || attempt > 6 {
+			return p, fmt.Errorf("package errors: %s", strings.Join(p.loadErrs, "; "))
+		}
 	}
 	prog, _ := ssautil.AllPackages(initial, ssa.InstantiateGenerics)
 	prog.Build()
